@@ -346,6 +346,11 @@ class Layouts:
 
     def _call(self, t: Term, depth) -> Layout:
         fr, args, kwargs = t[1], t[2], t[3]
+        if fr[0] == "ext" and fr[1] in ("bytes", "bytearray") and len(args) == 1 and args[0][0] == "slice" and args[0][1][0] == "param" \
+                and args[0][1][1] in ("args",):
+            # bytes(args[0:1]) - bytes built from a slice of the *argument tuple* (integers), not a view of a buffer
+            a = args[0]
+            return [Opaque(f"bytes-of:{show(a)[:40]}", Lin(0, {("len", show(a)[:40]): 1}), key=a)]
         # ---- content-preserving views
         u = unview(t)
         if u is not t and u != t:
